@@ -87,6 +87,21 @@ main(void) {
 				}
 				break;
 			}
+			case 'U': { /* U <table> <hex bytes>: translate the given (8-bit) text; its dump is logged at level ALL */
+				char *sp = strrchr(arg, ' ');
+				widechar in[256], out[1024];
+				int il = 0, ol = 1024;
+				if (!sp) break;
+				*sp++ = 0;
+				while (sp[0] && sp[1] && il < 255) {
+					unsigned v = 0;
+					sscanf(sp, "%2x", &v);
+					in[il++] = (widechar)v;
+					sp += 2;
+				}
+				lou_translateString(trim(arg), in, &il, out, &ol, NULL, NULL, 0);
+				break;
+			}
 			case 'T': {
 				char *sp = strrchr(arg, ' ');
 				widechar in[4] = { 'a', 'b', 'c', 0 }, out[64];
